@@ -64,7 +64,7 @@ Definition env_val (key : bstr) : value := match env key with Some v => v | None
    generated variable the scope maps it to, or in opt_data; the injected data
    is opt_ijData; everything is core data *)
 Record env_rel : Prop := {
-  er_var : forall key, bstr_eqb key n_ij = false ->
+  er_var : forall key, is_ident key = true -> bstr_eqb key n_ij = false ->
              match jsc_lookup sc key with
              | [] => js_member (je_data je) key = Ok (to_js (env_val key))
              | g => assoc_s g (je_vars je) = Some (to_js (env_val key))
@@ -72,6 +72,11 @@ Record env_rel : Prop := {
   er_ij : forall v, ij = Some v -> assoc_s t_opt_ij (je_vars je) = Some (to_js v);
   er_core : forall key, core_value (env_val key) = true;
   er_core_ij : forall v, ij = Some v -> core_value v = true;
+  (* inside a loop over $x (the renderer's hidden $x.index is bound) the generator's scope has a loop frame for x,
+     whose index variable holds the position and whose limit variable holds the count *)
+  er_loop : forall x i, env (x ++ jk_index) = Some (VInt i) ->
+              fst (jsc_loop sc x) <> [] /\ assoc_s (fst (jsc_loop sc x)) (je_vars je) = Some (JNum i)
+              /\ forall l, env (x ++ c_lastindex) = Some (VInt l) -> assoc_s (snd (jsc_loop sc x)) (je_vars je) = Some (JNum (l + 1));
 }.
 Hypothesis ER : env_rel.
 
@@ -105,17 +110,18 @@ Proof. unfold cint. destruct (small z) eqn:E; intro H; inversion H; auto. Qed.
 Theorem cgen_correct e : forall v, ceval ij env e = Some v ->
   js_eval je (cgen sc e) = Ok (to_js v) /\ core_value v = true.
 Proof.
-  induction e as [| x | z | s | key accs | a IHa | a IHa | op a IHa c IHc | c IHc a IHa d IHd]; intros v E; cbn [ceval cgen] in *.
+  induction e as [| x | z | s | key accs | a IHa | a IHa | op a IHa c IHc | c IHc a IHa d IHd | k x]; intros v E; cbn [ceval cgen] in *.
   - inversion E; subst. auto.
   - inversion E; subst. auto.
   - apply cint_inv in E. destruct E as [-> Hs]. cbn. auto.
   - inversion E; subst. auto.
   - (* variable *)
+    destruct (is_ident key) eqn:Eid; [|discriminate].
     destruct (bstr_eqb key n_ij) eqn:Ek.
     + destruct ij as [iv|] eqn:Eij; [|discriminate].
       apply (cgen_ref_correct accs iv); auto. cbn [js_eval]. rewrite (er_ij ER iv Eij). reflexivity. apply (er_core_ij ER); exact Eij.
     + apply (cgen_ref_correct accs (env_val key)); auto; [|apply (er_core ER)].
-      pose proof (er_var ER key Ek) as H. destruct (jsc_lookup sc key) as [|g0 g] eqn:El; cbn [js_eval].
+      pose proof (er_var ER key Eid Ek) as H. destruct (jsc_lookup sc key) as [|g0 g] eqn:El; cbn [js_eval].
       * exact H.
       * rewrite H. reflexivity.
   - (* neg *)
@@ -153,6 +159,17 @@ Proof.
     destruct (ceval ij env c) as [x|] eqn:Ec; [|discriminate]. destruct (IHc _ eq_refl) as [Hc Hcc].
     cbn [js_eval]. rewrite Hc. cbn [bind]. rewrite truthy_js by exact Hcc.
     destruct (truthy x); [apply IHa|apply IHd]; exact E.
+  - (* loop function *)
+    destruct (env (x ++ jk_index)) as [[| | |i| | | |]|] eqn:Ei; try discriminate.
+    destruct (er_loop ER x i Ei) as (Hne & Hix & Hlim).
+    pose proof (er_core ER (x ++ jk_index)) as Hci. unfold env_val in Hci. rewrite Ei in Hci.
+    destruct (jsc_loop sc x) as [ix lim]. cbn [fst snd] in *. destruct k.
+    + inversion E; subst. cbn [js_eval]. rewrite Hix. auto.
+    + inversion E; subst. cbn [js_eval]. rewrite Hix. auto.
+    + destruct (env (x ++ c_lastindex)) as [[| | |l| | | |]|] eqn:El; try discriminate. inversion E; subst.
+      pose proof (er_core ER (x ++ c_lastindex)) as Hcl. unfold env_val in Hcl. rewrite El in Hcl.
+      cbn [js_eval]. rewrite Hix, (Hlim l eq_refl). replace (l + 1 - 1)%Z with l by lia.
+      change (core_value (VInt l)) with (small l) in Hcl. rewrite Hcl. auto.
 Qed.
 End JsCorrect.
 
@@ -266,12 +283,12 @@ Qed.
 
 Lemma ceval_core e : forall v, ceval (c_ij cf) env e = Some v -> core_value v = true.
 Proof.
-  induction e as [| x | z | s | key accs | a IHa | a IHa | op a IHa c IHc | c IHc a IHa d IHd]; intros v E; cbn [ceval] in E.
+  induction e as [| x | z | s | key accs | a IHa | a IHa | op a IHa c IHc | c IHc a IHa d IHd | k x]; intros v E; cbn [ceval] in E.
   - inversion E; reflexivity.
   - inversion E; reflexivity.
   - apply cint_inv in E. destruct E as [-> Hs]. exact Hs.
   - inversion E; reflexivity.
-  - destruct (bstr_eqb key n_ij).
+  - destruct (is_ident key); [|discriminate]. destruct (bstr_eqb key n_ij).
     + destruct (c_ij cf) as [iv|] eqn:Ei; [|discriminate]. apply (cacc_core accs iv); auto.
     + apply (cacc_core accs _ v) in E; auto. destruct (env key) eqn:Ek; [eapply env_core; eauto|reflexivity].
   - destruct (ceval (c_ij cf) env a) as [[| | |z| | | |]|]; try discriminate. apply cint_inv in E. destruct E as [-> Hs]. exact Hs.
@@ -289,6 +306,15 @@ Proof.
       destruct (ceval (c_ij cf) env c) as [[| |y| | | | |]|]; try discriminate. inversion E; reflexivity. inversion E; reflexivity.
     + destruct (ceval (c_ij cf) env a) as [x|] eqn:Ea; [|discriminate]. destruct (c_nullish x). apply IHc; exact E. inversion E; subst. apply IHa; reflexivity.
   - destruct (ceval (c_ij cf) env c) as [x|]; [|discriminate]. destruct (truthy x); [apply IHa|apply IHd]; exact E.
+  - destruct (env (x ++ jk_index)) as [[| | |i| | | |]|] eqn:Ei; try discriminate. destruct k.
+    + inversion E; subst. eapply env_core; eauto.
+    + inversion E; reflexivity.
+    + destruct (env (x ++ c_lastindex)) as [[| | |l| | | |]|]; try discriminate. inversion E; reflexivity.
+Qed.
+
+Lemma mok_lookup st k v : ctx st = ctx st0 -> env k = Some v -> mok (m_lookup k) st v.
+Proof.
+  intros Hc Hk. unfold mok, m_lookup. rewrite Hc. fold (env k). rewrite Hk. exists st. split; [reflexivity|apply pres_refl].
 Qed.
 
 Lemma walk_S f n st v : mok (walk_node cf (walk cf f) n) (set_cur st (pos_of n)) v -> mok (walk cf (S f) n) st v.
@@ -305,7 +331,7 @@ Proof. intro H; exact H. Qed.
 Theorem interp_ceval e : forall fuel st v, (cdepth e < fuel)%nat -> ctx st = ctx st0 ->
   ceval (c_ij cf) env e = Some v -> mok (walk cf fuel (cnode e)) st v.
 Proof.
-  induction e as [| x | z | s | key accs | a IHa | a IHa | op a IHa c IHc | c IHc a IHa d IHd];
+  induction e as [| x | z | s | key accs | a IHa | a IHa | op a IHa c IHc | c IHc a IHa d IHd | k x];
     intros fuel st v Hf Hctx E; (destruct fuel as [|f]; [cbn in Hf; lia|]); cbn [cdepth] in Hf;
     apply walk_S; cbn [cnode];
     match goal with |- mok _ ?s _ => set (st1 := s) end;
@@ -316,7 +342,7 @@ Proof.
   - apply cint_inv in E. destruct E as [-> _]. cbn [walk_node]. apply mok_ret.
   - inversion E; subst. cbn [walk_node]. apply mok_ret.
   - (* variable *)
-    cbn [walk_node]. change s_ij with n_ij.
+    cbn [walk_node]. change s_ij with n_ij. destruct (is_ident key); [|discriminate].
     destruct (bstr_eqb key n_ij).
     + destruct (c_ij cf) as [iv|]; [|discriminate]. apply mok_bind with (x := iv). apply mok_ret. intros s1 _. apply mok_dataref; exact E.
     + apply mok_bind with (x := match env key with Some v0 => v0 | None => VUndef end).
@@ -380,6 +406,20 @@ Proof.
     cbn [walk_node]. destruct (ceval (c_ij cf) env c) as [x|] eqn:Ec; [|discriminate].
     apply mok_bind with (x := x). apply mok_eval. apply IHc; [lia|exact Hc1|reflexivity]. intros s1 Hs1.
     destruct (truthy x); apply mok_eval; [apply IHa|apply IHd]; try lia; try congruence; exact E.
+  - (* loop function *)
+    cbn [walk_node].
+    replace (fn_is (cloop_name k) n_index || fn_is (cloop_name k) n_isFirst || fn_is (cloop_name k) n_isLast) with true by (destruct k; reflexivity).
+    unfold loop_func. change s_index with jk_index. change s_lastindex with c_lastindex.
+    destruct (env (x ++ jk_index)) as [[| | |i| | | |]|] eqn:Ei; try discriminate.
+    apply mok_bind with (x := VInt i). apply mok_lookup; assumption. intros s1 Hs1.
+    destruct k.
+    + replace (fn_is (cloop_name LIndex) n_index) with true by reflexivity. inversion E; subst. apply mok_ret.
+    + replace (fn_is (cloop_name LIsFirst) n_index) with false by reflexivity.
+      replace (fn_is (cloop_name LIsFirst) n_isFirst) with true by reflexivity. inversion E; subst. apply mok_ret.
+    + replace (fn_is (cloop_name LIsLast) n_index) with false by reflexivity.
+      replace (fn_is (cloop_name LIsLast) n_isFirst) with false by reflexivity.
+      destruct (env (x ++ c_lastindex)) as [[| | |l| | | |]|] eqn:El; try discriminate. inversion E; subst.
+      apply mok_bind with (x := VInt l). apply mok_lookup; [congruence|assumption]. intros s2 _. apply mok_ret.
 Qed.
 End Env.
 End Bridge.
